@@ -1,3 +1,4 @@
 import Iodata.Props.C10
 import Iodata.Props.C11
 import Iodata.Props.C12
+import Iodata.Props.C14
